@@ -7,14 +7,16 @@
 (* different groups is tagged CEX (a model counterexample to replay).        *)
 EXTENDS DKGExec, Json
 
-CONSTANTS Depth, MaxDup
+CONSTANTS Depth, MaxDup,
+          ShiftRanks   \* TRUE: a joiner never holds the last index (old and new indices of members differ)
 VARIABLES hist, dups
 svars == <<vars, hist, dups>>
 
 \* every order of the public keys (a late node does not hold the last index, so that QUAL has a gap)
 SimRanks == {r \in [Nodes -> 1..Cardinality(Nodes)] :
                /\ \A a, b \in Nodes : a # b => r[a] # r[b]
-               /\ \A x \in LateSet : r[x] < Cardinality(Nodes)}
+               /\ \A x \in LateSet : r[x] < Cardinality(Nodes)
+               /\ ShiftRanks => \A j \in JoinSet : r[j] < Cardinality(Nodes)}
 
 Parts == JoinSet \cup RemainSet
 AllOutcome == prop # NoTerms /\ \A n \in Parts : st[n] \in {"Done", "Failed"}
